@@ -1,5 +1,6 @@
 import AsyncsshModel.Lemmas.SftpIOSparse
 import AsyncsshModel.Lemmas.SftpIOFile
+import AsyncsshModel.Lemmas.SftpIOFix
 import AsyncsshModel.Gen.C12
 /-
   C12 — SFTP transfers reproduce the source bytes exactly or report failure.
@@ -104,17 +105,51 @@ theorem gen_default_max_requests (bs : Int) :
   refine ⟨?_, ?_, ?_, ?_, ?_, ?_⟩ <;> first | trivial | rfl | omega | (intro mr h; omega)
 
 /-- `SFTPClientFile.read` / `.write`: which path is taken and where the position moves -/
-theorem gen_fileobj (o : FObj) (size : Int) (off : Int) (n : Nat) :
-    (Gen.C12.readParallelCond o.readLen o.maxReadLen size ↔ readParallel o size = true) ∧
+theorem gen_fileobj (o : FObj) (size : Int) (off : Int) (n : Nat) (toEnd : Bool)
+    (ho : o.toEndReader = Gen.C12.readToEndUsesReader) :
+    (Gen.C12.readParallelCond o.readLen o.maxReadLen size toEnd ↔ readParallel o toEnd size = true) ∧
     (Gen.C12.writeParallelCond o.writeLen n ↔ writeParallel o n = true) ∧
     Gen.C12.readNewOffset off n = off + n ∧ Gen.C12.writeNewOffset off n = off + n := by
   simp only [Gen.C12.readParallelCond, Gen.C12.writeParallelCond, Gen.C12.readNewOffset,
-    Gen.C12.writeNewOffset, readParallel, writeParallel]
+    Gen.C12.writeNewOffset, readParallel, writeParallel, ho, Gen.C12.readToEndUsesReader]
   refine ⟨?_, ?_, trivial, trivial⟩
+  · simp only [Bool.and_eq_true, Bool.or_eq_true, bne_iff_ne, decide_eq_true_eq, ne_eq, Bool.true_and,
+      Bool.false_and, Bool.false_eq_true, false_or]
+    constructor
+    · intro h
+      refine ⟨by omega, ?_⟩
+      first
+      | (rcases h.2 with h2 | h2
+         · exact Or.inl h2
+         · exact Or.inr (by omega))
+      | omega
+    · intro h
+      refine ⟨by omega, ?_⟩
+      first
+      | (rcases h.2 with h2 | h2
+         · exact Or.inl h2
+         · exact Or.inr (by omega))
+      | omega
   · simp only [Bool.and_eq_true, bne_iff_ne, decide_eq_true_eq, ne_eq]
     constructor <;> intro h <;> exact ⟨by omega, by omega⟩
-  · simp only [Bool.and_eq_true, bne_iff_ne, decide_eq_true_eq, ne_eq]
-    constructor <;> intro h <;> exact ⟨by omega, by omega⟩
+
+/-- the loop of `SFTPServer.write` (present in the tree iff `Gen.C12.serverWritesAll`): it is left only when the
+    whole block has been written, and the counter moves by what each `write()` reported -/
+theorem gen_writeLoop (written len count : Int) :
+    (Gen.C12.serverWritesAll = true →
+      ((¬ Gen.C12.writeLoopCond written len) ↔ len ≤ written) ∧
+      Gen.C12.writeLoopNext written count = written + count) ∧
+    (Gen.C12.serverWritesAll = false → ¬ Gen.C12.writeLoopCond written len) := by
+  constructor
+  · intro h
+    first
+    | exact absurd h (by decide)
+    | (simp only [Gen.C12.writeLoopCond, Gen.C12.writeLoopNext]
+       exact ⟨by omega, trivial⟩)
+  · intro h
+    first
+    | exact absurd h (by decide)
+    | (simp only [Gen.C12.writeLoopCond]; exact fun h' => h')
 
 /-- the optional last step of a sparse copy (present in the tree iff `Gen.C12.copierExtendsSparse`):
     its condition, the offset of the zero byte, and the `range_end` bookkeeping are those of `extendSparse` -/
@@ -263,6 +298,54 @@ theorem read_correct (src : Bytes) (start size bs mr : Nat) (hbs : 1 ≤ bs) (hm
 theorem read_needs_a_request : goutcome (rrun 2 0 0 4 []) = .ok [] := by
   simp [rrun, rinit, grun, goutcome, IO.idle, startTasks]
 
+/-! ## `SFTPClientFile.read()` to the end of the file -/
+
+/-- **Witness of the short-read defect of `read()` (repaired by a `fix:` commit)**: before the repair
+    (`toEndReader = false`) a `read()` of a file no larger than the block size is ONE request whose reply is
+    final.  A truthful server that answers the 3-byte request with 1 byte (a short read) makes `read()` return
+    `01` for the file `01 02 03`. -/
+theorem old_read_to_end_short_reply_final :
+    let o : FObj := ⟨false, some 0, 4, 4, 4, false⟩
+    let evs : List Ev := [.complete ⟨0, 3⟩ (.data [1])]
+    (∀ e ∈ evs, Truthful [1, 2, 3] e) ∧
+    fread true o 1 true 0 3 evs = .ok [1] ∧ ([1] : Bytes) ≠ ([1, 2, 3] : Bytes).drop 0 := by
+  refine ⟨?_, by decide, by decide⟩
+  intro e he
+  simp only [List.mem_cons, List.not_mem_nil, or_false] at he
+  subst he
+  refine ⟨by simp, ?_⟩
+  intro i hi
+  have : i = 0 := by simpa using hi
+  subst this; rfl
+
+/-- the same reply with the repair: the reader asks for the remaining two bytes, the read is not over -/
+theorem read_to_end_short_reply_rerequested :
+    let o : FObj := ⟨false, some 0, 4, 4, 4, true⟩
+    fread true o 1 true 0 3 [.complete ⟨0, 3⟩ (.data [1]), .endBatch] = .running ∧
+    fread true o 1 true 0 3 [.complete ⟨0, 3⟩ (.data [1]), .endBatch,
+                             .complete ⟨1, 2⟩ (.data [2, 3]), .endBatch] = .ok [1, 2, 3] := by
+  constructor <;>
+    simp [fread, readParallel, rrunS, rev, rrun, rinit, grun, gstep, gcomplete, goutcome, IO.idle, startTasks,
+      blockSize, finish, continuation, endBatchIO, store, writeAt]
+
+/-- **read_to_end_correct** ("file read of any … size … also when the server answers … with short reads"): with the
+    repair found in sftp.py by the translator (`Gen.C12.readToEndUsesReader`), `read()` / `read(-1)` of a file
+    object with a block size (`read_len ≠ 0`) whose `fstat` reports the real size returns, for EVERY truthful event
+    list (short replies of any length, any order), exactly the bytes from the offset to the end of the file — or does
+    not return normally.  Stops building if the repair goes away. -/
+theorem read_to_end_correct (src : Bytes) (off mr : Nat) (o : FObj) (hrl : 1 ≤ o.readLen) (hmr : 1 ≤ mr)
+    (ho : o.toEndReader = Gen.C12.readToEndUsesReader)
+    (evs : List Ev) (htr : ∀ e ∈ evs, Truthful src e) (b : Bytes)
+    (hok : fread Gen.C12.readerRejectsEmpty o mr true off (src.length - off) evs = .ok b) :
+    b = src.drop off := by
+  have hflag : Gen.C12.readToEndUsesReader = true := rfl
+  have hpar : readParallel o true ((src.length - off : Nat) : Int) = true := by
+    simp only [readParallel, ho, hflag, Bool.true_and, Bool.true_or, Bool.and_true, ne_eq, decide_eq_true_eq]
+    omega
+  simp only [fread, hpar, if_true] at hok
+  have := read_correct src off (src.length - off) o.readLen mr hrl hmr evs htr b hok
+  rw [this, List.take_of_length_le (by simp)]
+
 /-! ## errors -/
 
 /-- **error_propagates** ("if any block fails the operation raises"): once a completion with an error has
@@ -332,6 +415,77 @@ theorem write_correct_example :
     pwrite [1, 2] 3 [7, 8, 9, 10, 11] = ([1, 2, 0, 7, 8, 9, 10, 11] : Bytes) := by
   simp [wrun, winit, wstep, wev, wslice, gstep, gcomplete, goutcome, IO.idle, startTasks, blockSize, finish,
     continuation, endBatchIO, store, writeAt, pwrite]
+
+/-- **Witness of the EOF-status defect (repaired by a `fix:` commit)**: before the repair (`eofErr = false`) the
+    `except SFTPEOFError: self._bytes_left = 0` shared by reader, writer and copier takes an FX_EOF status
+    answering a WRITE for the end of the file.  6 bytes in blocks of 2, one request at a time: the second block
+    is answered FX_EOF, the third is never sent, `write()` returns normally — the file holds 2 of the 6 bytes. -/
+theorem old_writer_eof_status_truncates :
+    goutcome (wrunX false true 2 1 0 [1, 2, 3, 4, 5, 6] []
+      [.base (.ok ⟨0, 2⟩), .base .endBatch, .eof ⟨2, 2⟩, .base .endBatch]) = .ok [1, 2] ∧
+    ([1, 2] : Bytes) ≠ pwrite [] 0 [1, 2, 3, 4, 5, 6] := by
+  refine ⟨?_, by decide⟩
+  simp [wrunX, wstepX, winit, wstep, wev, wslice, gstep, gcomplete, goutcome, IO.idle, startTasks, blockSize,
+    finish, continuation, endBatchIO, store, writeAt, pwrite]
+
+/-- **Witness of the short-write defect (repaired by a `fix:` commit)**: before the repair (`writeAll = false`)
+    `SFTPServer.write` issues one `write()` on an unbuffered file and its count is dropped: the block that crosses
+    the end of free space is answered FX_OK although only part of it was written.  4 bytes in blocks of 2: of
+    the second block only 1 byte is accepted; `write()` returns normally — the file holds 3 of the 4 bytes. -/
+theorem old_server_short_write_acknowledged :
+    goutcome (wrunX true false 2 2 0 [1, 2, 3, 4] []
+      [.base (.ok ⟨0, 2⟩), .short ⟨2, 2⟩ 1, .base .endBatch]) = .ok [1, 2, 3] ∧
+    ([1, 2, 3] : Bytes) ≠ pwrite [] 0 [1, 2, 3, 4] := by
+  refine ⟨?_, by decide⟩
+  simp [wrunX, wstepX, winit, wstep, wev, wslice, gstep, gcomplete, goutcome, IO.idle, startTasks, blockSize,
+    finish, continuation, endBatchIO, store, writeAt, pwrite]
+
+/-- the two schedules above make the repaired code raise -/
+theorem writer_eof_status_and_short_write_raise :
+    goutcome (wrunX true true 2 1 0 [1, 2, 3, 4, 5, 6] []
+      [.base (.ok ⟨0, 2⟩), .base .endBatch, .eof ⟨2, 2⟩, .base .endBatch]) = .raised ∧
+    goutcome (wrunX true true 2 2 0 [1, 2, 3, 4] []
+      [.base (.ok ⟨0, 2⟩), .short ⟨2, 2⟩ 1, .base .endBatch]) = .raised := by
+  constructor <;>
+    simp [wrunX, wstepX, winit, wstep, wev, wslice, gstep, gcomplete, goutcome, IO.idle, startTasks, blockSize,
+      finish, continuation, endBatchIO, store, writeAt, pwrite]
+
+/-- **write_correct for the code of the tree being checked, against everything the environment can do to a
+    block** ("file … write … produce exactly the source bytes at the destination"; "if any block fails … the
+    operation raises an error; it never reports success for a corrupted result").  Besides completion order and
+    per-block errors: any block may be answered with an FX_EOF status, and of any block the kernel may accept
+    only a part.  If the write returns, the file is `pwrite(file0, start, data)`.  The proof needs both repairs
+    found in sftp.py by the translator (`Gen.C12.writeEofIsError`, `Gen.C12.serverWritesAll`); it stops building
+    if one of them goes away. -/
+theorem write_correct_live (data file0 : Bytes) (start bs mr : Nat) (hbs : 1 ≤ bs) (hmr : 1 ≤ mr)
+    (evs : List WEvX) (b : Bytes)
+    (hok : goutcome (wrunX Gen.C12.writeEofIsError Gen.C12.serverWritesAll bs mr start data file0 evs) = .ok b) :
+    b = pwrite file0 start data := by
+  have h1 : Gen.C12.writeEofIsError = true := rfl
+  have h2 : Gen.C12.serverWritesAll = true := rfl
+  rw [h1, h2, wrunX_fixed] at hok
+  exact write_correct data file0 start bs mr hbs hmr _ b hok
+
+/-- **consecutive writes tile the file** ("file read/write of any content, size, offset"): `write(d₁) … write(dₙ)`
+    without explicit offset on a file object at byte position `p` (not in append mode) leave the file as one
+    `pwrite` of `d₁ ++ … ++ dₙ` at `p`, move the position to `p + Σ|dᵢ|` and return `|dᵢ|` each.  The `dᵢ` are the
+    BYTES handed to the server — in text mode the encoded form of each string (`gen_fileobj`: the position moves
+    by `datalen`, and the translator checks `datalen = len(<the bytes written>)`), so no two writes overlap and
+    none leaves a gap, whatever the number of characters. -/
+theorem consecutive_writes_tile (ds : List Bytes) (w : FWorld) (p : Nat) (happ : w.obj.appending = false)
+    (hoff : w.obj.offset = some (p : Int)) :
+    (frun w (writeOps ds)).1.content = pwrite w.content p ds.flatten ∧
+    (frun w (writeOps ds)).1.obj.offset = some ((p + ds.flatten.length : Nat) : Int) ∧
+    (frun w (writeOps ds)).2 = ds.map fun d => FRes.num d.length :=
+  frun_writeOps ds w p happ hoff
+
+/-- non-vacuity, and why bytes: `"é"`, `"a"` written in utf-8 are `c3 a9` and `61`; advancing by the number of
+    characters (1) instead of bytes (2) would put `61` over `a9` -/
+theorem consecutive_writes_example :
+    let w : FWorld := ⟨[], ⟨false, some 0, 4, 4, 4, true⟩⟩
+    (frun w (writeOps [[0xc3, 0xa9], [0x61]])).1.content = [0xc3, 0xa9, 0x61] ∧
+    (frun w [.write [0xc3, 0xa9] none, .seekSet 1, .write [0x61] none]).1.content = [0xc3, 0x61] := by
+  constructor <;> simp [writeOps, frun, fstep, pwrite, writeAt]
 
 /-! ## copies (get / put / copy) -/
 
@@ -597,6 +751,53 @@ theorem sparse_copy_exact (src : Bytes) (ranges : List (Nat × Nat)) (bs mr : Na
   sparse_copy_exact_live src ranges bs mr hbs hmr hzero hin
     (fun h => absurd (show Gen.C12.copierExtendsSparse = true from rfl) (by rw [h]; decide)) evs htr heo dst hok
 
+/-- **Witness of the EOF-status defect in the copier (repaired by a `fix:` commit)**: before the repair
+    (`cev false` = identity) a sparse `put`/`copy` whose second block is answered FX_EOF *by the destination*
+    stops issuing blocks and returns normally with 1 of the 3 source bytes. -/
+theorem old_copier_eof_status_truncates :
+    let src : Bytes := [1, 2, 3]
+    let evs : List Ev := [.complete ⟨0, 1⟩ (.data [1]), .endBatch, .complete ⟨1, 1⟩ .eof, .endBatch]
+    (∀ e ∈ evs, TruthfulData src e) ∧ (∀ e ∈ evs, EofOnly src e) ∧
+    coutcomeX true 3 true [(0, 3)] (crunE false 1 1 [(0, 3)] evs) = .ok [1] ∧ ([1] : Bytes) ≠ src ∧
+    coutcomeX true 3 true [(0, 3)] (crunE true 1 1 [(0, 3)] evs) = .raised := by
+  refine ⟨?_, ?_, ?_, by decide, ?_⟩
+  · intro e he
+    simp only [List.mem_cons, List.not_mem_nil, or_false] at he
+    rcases he with rfl | rfl | rfl | rfl <;> simp [TruthfulData]
+  · intro e he
+    simp only [List.mem_cons, List.not_mem_nil, or_false] at he
+    rcases he with rfl | rfl | rfl | rfl <;> simp [EofOnly]
+  · simp [crunE, cev, coutcomeX, extendSparse, rangesEnd, crun, cinit, cstep, advance, coutcome, sizeCheckFails,
+      gstep, gcomplete, IO.idle, startTasks, blockSize, finish, continuation, endBatchIO, store, writeAt, pwrite]
+  · simp [crunE, cev, coutcomeX, extendSparse, rangesEnd, crun, cinit, cstep, advance, coutcome, sizeCheckFails,
+      gstep, gcomplete, IO.idle, startTasks, blockSize, finish, continuation, endBatchIO, store, writeAt, pwrite]
+
+/-- **copies of the tree being checked, whatever status the destination answers** ("if any block fails … the
+    operation raises"): the hypothesis on EOF statuses is gone — the server is only assumed truthful about the
+    *source* bytes it delivers (`TruthfulData`); an EOF status for any block, at any offset, is a failed block.
+    Non-sparse: a normal return means destination = the first `total` source bytes; sparse: destination = source
+    for every hole layout.  Needs `Gen.C12.writeEofIsError` (stops building if that repair goes away). -/
+theorem copy_correct_any_status (src : Bytes) (total bs mr : Nat) (hbs : 1 ≤ bs) (hmr : 1 ≤ mr)
+    (evs : List Ev) (htr : ∀ e ∈ evs, TruthfulData src e) (dst : Bytes)
+    (hok : coutcome total false (crunE Gen.C12.writeEofIsError bs mr (nonsparseRanges total) evs) = .ok dst) :
+    dst = src.take total ∧ total ≤ src.length := by
+  have h1 : Gen.C12.writeEofIsError = true := rfl
+  rw [h1] at hok
+  exact copy_correct_or_error src total bs mr hbs hmr _ (map_cev_truthful src evs htr) dst hok
+
+theorem sparse_copy_exact_any_status (src : Bytes) (ranges : List (Nat × Nat)) (bs mr : Nat)
+    (hbs : 1 ≤ bs) (hmr : 1 ≤ mr)
+    (hzero : ∀ p, p < src.length → ¬ InRanges ranges p → src[p]? = some 0)
+    (hin : ∀ rg ∈ ranges, rg.1 < src.length)
+    (evs : List Ev) (htr : ∀ e ∈ evs, TruthfulData src e) (heo : ∀ e ∈ evs, EofOnly src e) (dst : Bytes)
+    (hok : coutcomeX Gen.C12.copierExtendsSparse src.length true ranges
+      (crunE Gen.C12.writeEofIsError bs mr ranges evs) = .ok dst) :
+    dst = src := by
+  have h1 : Gen.C12.writeEofIsError = true := rfl
+  rw [h1] at hok
+  exact sparse_copy_exact src ranges bs mr hbs hmr hzero hin _ (map_cev_truthful src evs htr)
+    (map_cev_eofOnly src true evs heo) dst hok
+
 /-- the server-side copy used by `copy()` on one connection (`copy-data`), abstractly: non-sparse, one range
     `(0,total)` with `total > 0` reproduces the first `total` bytes (all of them when `total` is the size). -/
 theorem remote_copy_nonsparse (src : Bytes) (total : Nat) (h : 0 < total) :
@@ -624,11 +825,11 @@ theorem fileobj_offsets (ops : List FOp) (w : FWorld) (hwf : WF w)
 
 /-- non-vacuity: append-mode file; write, seek back, read, tell -/
 theorem fileobj_offsets_example :
-    let w : FWorld := ⟨[1, 2, 3], ⟨true, none, 2, 2, 16⟩⟩
+    let w : FWorld := ⟨[1, 2, 3], ⟨true, none, 2, 2, 16, true⟩⟩
     let ops := [FOp.write [4, 5] none, .seekSet 1, .read (some 3) none, .tell, .write [6] none, .tell]
     WF w ∧ (frun w ops).2 = [.num 2, .num 1, .bytes [2, 3, 4], .num 4, .num 1, .num 6] ∧
     (frun w ops).1.content = [1, 2, 3, 4, 5, 6] := by
   refine ⟨⟨by simp, by simp⟩, ?_, ?_⟩ <;>
-    simp [frun, fstep, effSize, slice, readParallel, pwrite]
+    simp [frun, fstep, effSize, slice, readParallel, readToEnd, pwrite]
 
 end AsyncsshModel.C12
